@@ -171,7 +171,7 @@ DEFAULT_FEATURES = dict(
     derived=True, cte=True, order=True, limit=True, offset_no_limit=False, order_expr=True,
     cast=True, concat=True, group_expr=True, where_false=True, case_no_else=False,
     corr_in_sub=False, neg=True, null_lit=True, sum_=True, derived_limit=False, agg_in_list=True, in_sub_expr=True,
-    sorted_join=True, join_mixed_key=True, order_hidden_pk=True, join_false_conjunct=True,
+    sorted_join=True, join_mixed_key=True, order_hidden_pk=True, join_false_conjunct=True, bare_scan=True,
 )
 
 
@@ -201,6 +201,8 @@ class QueryGen:
         # aggregate calls (text in terms of base columns) the derived tables in scope expose
         self.origin = {}
         self.inner_aggs = set()
+        # second stream for shapes added later: the main stream (and with it every earlier case) is left as it was
+        self.rng2 = random.Random(repr(rng.getstate()[1][:8]))
 
     def on(self, name, p=1.0):
         return self.f.get(name, False) and self.rng.random() < p
@@ -655,6 +657,48 @@ class QueryGen:
         sql = f"SELECT {distinct}{sel} FROM {frm}{where_sql}{group_sql}{having_sql}"
         return dict(sql=sql, types=types, n=len(items), items=items)
 
+    def bare_query(self):
+        """LIMIT / ORDER BY / nothing directly above a plain column scan of one table (what rules keyed on `(limit … (scan …))`,
+        `(order … (scan …))` and on the scan's row estimate see), drawn from the second stream."""
+        main, self.rng = self.rng, self.rng2
+        try:
+            r = self.rng
+            self.tag("bare_scan")
+            t = max(r.sample(self.tables, min(2, len(self.tables))), key=lambda t: len(getattr(t, "rows", None) or []))
+            nrows = len(getattr(t, "rows", None) or [])
+            around = [k for k in (nrows - 1, nrows, nrows + 1, nrows // 2) if k >= 1]   # limits around the real row count
+            a = self.new_alias()
+            scope = self.table_scope(t, a)
+            cols = r.sample(scope, r.randint(1, len(scope)))
+            n = len(cols)
+            sql = "SELECT " + ", ".join(f"{c[0]} AS c{i}" for i, c in enumerate(cols)) + f" FROM {t.name} AS {a}"
+            if r.random() < 0.25:
+                sql += " WHERE " + self.bool_expr(scope)
+            k = r.random()
+            if k < 0.55 and self.f.get("unordered_limit"):
+                self.tag("unordered_limit")
+                sql += f" LIMIT {r.choice([1, 2, 3, 5, 100] + around)}"
+                q = Q(sql, self.tags, n, [], True)
+                q.count_only = True
+                return q
+            if k < 0.85 and self.f.get("order"):
+                self.tag("order")
+                idx = list(range(n))
+                r.shuffle(idx)
+                order = [(i, r.random() < 0.4) for i in idx]
+                sql += " ORDER BY " + ", ".join(f"c{i}{' DESC' if d else ''}" for i, d in order)
+                limited = False
+                if self.f.get("limit") and r.random() < 0.7:
+                    self.tag("limit")
+                    limited = True
+                    sql += f" LIMIT {r.choice([0, 1, 2, 3, 5] + around)}"
+                    if r.random() < 0.4:
+                        sql += f" OFFSET {r.choice([0, 1, 2, 7])}"
+                return Q(sql, self.tags, n, order, limited)
+            return Q(sql, self.tags, n, [], False)
+        finally:
+            self.rng = main
+
     def fresh_agg(self, scope, int_only=False):
         for _ in range(8):
             a = self.agg_expr(scope, int_only)
@@ -705,6 +749,8 @@ class QueryGen:
         self.tags = set()
         self.origin, self.inner_aggs = {}, set()
         self.single_pk = None
+        if self.f.get("bare_scan") and self.rng2.random() < 0.07:
+            return self.bare_query()
         core = self.select_core()
         hidden_pk = self.single_pk if not ({"agg", "distinct", "derived", "sorted_join"} & self.tags) else None
         sql = core["sql"]
